@@ -11,7 +11,7 @@ META = {
              'object-count class); non-trivial when at least one attribute is present'),
     'required_obs': {'quick': ['sets', 'absent-attribute', 'count-2..127', 'count-2byte', 'units-component', 'named-set',
                                'multi-object-set', 'files-written', 'empty-list-tried', 'non-ascii-tried', 'empty-set-name', 'set-renamed-after-creation', 'inplace-edit-then-rewrite',
-                               'inplace-pop', 'inplace-dup', 'inplace-clear']
+                               'inplace-pop', 'inplace-dup', 'inplace-clear', 'copy-number>=128']
                      + ['settype-' + v['set'] for v in _meta.schema.TYPES.values()] + ['settype-FILE-HEADER']},
     'assumptions': ['strict parser vf/rp66.py implements RP66 V1 chapter 3 (component descriptors, template inheritance)'],
 }
